@@ -61,12 +61,30 @@ fn scan_encoding(enc: &[u8], st: &mut Stats) {
 
 /// Ok(encoding) or Err(what)
 fn check_pair(reference: &[u8], target: &[u8], mm: u32) -> Result<Vec<u8>, String> {
+    check_sequence(reference, &[target], mm).map(|mut v| v.pop().unwrap_or_default())
+}
+
+/// One encoder instance (prepared once, as a group's encoder is in the compressor) encodes the
+/// targets in turn; every encoding is decoded by the same instance and by a fresh one prepared
+/// with the same reference (as the decompressor does). Ok(encodings) or Err(what).
+fn check_sequence(reference: &[u8], targets: &[&[u8]], mm: u32) -> Result<Vec<Vec<u8>>, String> {
     let r = catch_unwind(AssertUnwindSafe(|| {
         let mut lz = LZDiff::new(mm);
         lz.prepare(&reference.to_vec());
-        let enc = lz.encode(&target.to_vec());
-        let dec = if enc.is_empty() { None } else { Some(lz.decode(&enc)) };
-        (enc, dec)
+        let mut out = Vec::new();
+        for t in targets {
+            let enc = lz.encode(&t.to_vec());
+            let dec = if enc.is_empty() {
+                None
+            } else {
+                let same = lz.decode(&enc);
+                let mut fresh = LZDiff::new(mm);
+                fresh.prepare(&reference.to_vec());
+                Some((same, fresh.decode(&enc)))
+            };
+            out.push((enc, dec));
+        }
+        out
     }));
     match r {
         Err(p) => {
@@ -77,29 +95,38 @@ fn check_pair(reference: &[u8], target: &[u8], mm: u32) -> Result<Vec<u8>, Strin
                 .unwrap_or_default();
             Err(format!("panic: {}", msg))
         }
-        Ok((enc, dec)) => {
-            if enc.contains(&0xFF) {
-                return Err("encoding contains the pack separator 0xFF".into());
-            }
-            match dec {
-                None => {
-                    if target != reference {
-                        return Err("empty encoding although target differs from reference".into());
+        Ok(results) => {
+            let mut encs = Vec::new();
+            for (ti, ((enc, dec), target)) in results.into_iter().zip(targets.iter()).enumerate() {
+                let nth = if ti == 0 { String::new() } else { format!(" (target {} encoded by the same encoder instance)", ti + 1) };
+                if enc.contains(&0xFF) {
+                    return Err(format!("encoding contains the pack separator 0xFF{}", nth));
+                }
+                match dec {
+                    None => {
+                        if *target != reference {
+                            return Err(format!("empty encoding although target differs from reference{}", nth));
+                        }
+                    }
+                    Some((same, fresh)) => {
+                        for (who, d) in [("the encoder's own instance", &same), ("a fresh decoder", &fresh)] {
+                            if &d[..] != *target {
+                                let pos = d.iter().zip(target.iter()).position(|(a, b)| a != b).unwrap_or(d.len().min(target.len()));
+                                return Err(format!(
+                                    "decode(encode(t)) != t: decoded by {}: lengths {} vs {}, first difference at {}{}",
+                                    who,
+                                    d.len(),
+                                    target.len(),
+                                    pos,
+                                    nth
+                                ));
+                            }
+                        }
                     }
                 }
-                Some(d) => {
-                    if d != target {
-                        let pos = d.iter().zip(target.iter()).position(|(a, b)| a != b).unwrap_or(d.len().min(target.len()));
-                        return Err(format!(
-                            "decode(encode(t)) != t: lengths {} vs {}, first difference at {}",
-                            d.len(),
-                            target.len(),
-                            pos
-                        ));
-                    }
-                }
+                encs.push(enc);
             }
-            Ok(enc)
+            Ok(encs)
         }
     }
 }
@@ -156,6 +183,57 @@ fn for_all_strings(alpha: &[u8], len: usize, f: &mut dyn FnMut(&[u8])) {
             idx[p] = 0;
             s[p] = alpha[0];
         }
+    }
+}
+
+/// Pairs beyond 65 535 symbols with only a handful of differences: matches, position deltas
+/// and N runs whose length does not fit 16 bits
+fn huge_case(args: &Args, rep: &mut Report, st: &mut Stats, i: u64, rng: &mut Rng) {
+    let len = rng.usize(70_000, 260_000);
+    let mut reference = random_seq(rng, len, false);
+    if rng.chance(1, 2) {
+        let at = rng.usize(0, len - 1);
+        let l = (*rng.pick(&[300usize, 70_000])).min(len - at);
+        for x in reference[at..at + l].iter_mut() {
+            *x = 4;
+        }
+    }
+    let mut target = reference.clone();
+    match rng.below(4) {
+        0 => {
+            // block move: the second half first
+            let cut = rng.usize(len / 3, 2 * len / 3);
+            target = [&reference[cut..], &reference[..cut]].concat();
+        }
+        1 => {
+            let at = rng.usize(0, len - 1);
+            let l = (*rng.pick(&[260usize, 66_000])).min(len - at);
+            for x in target[at..at + l].iter_mut() {
+                *x = 4;
+            }
+        }
+        _ => {}
+    }
+    for _ in 0..rng.usize(0, 4) {
+        let p = rng.usize(0, target.len() - 1);
+        target[p] = rng.below(4) as u8;
+    }
+    if rng.chance(1, 3) {
+        let p = rng.usize(0, target.len() - 1);
+        target.remove(p);
+    }
+    let mm = rng.range(5, 32) as u32;
+    rep.evaluations += 1;
+    match check_pair(&reference, &target, mm) {
+        Ok(enc) => {
+            rep.count("pairs_longer_than_65535_symbols", 1);
+            if enc.is_empty() {
+                st.equal_ref += 1;
+            }
+            scan_encoding(&enc, st);
+            rep.nontrivial(fnv(&target) ^ fnv(&reference).rotate_left(7) ^ mm as u64);
+        }
+        Err(w) => report_violation(rep, args, &w, &reference, &target, mm, &format!("rand:{}", i)),
     }
 }
 
@@ -336,6 +414,9 @@ pub fn run(args: &Args, rep: &mut Report) {
 fn random_case(args: &Args, rep: &mut Report, st: &mut Stats, i: u64, verbose: bool) {
     let miri = cfg!(miri);
     let mut rng = Rng::derive(args.seed, 0xC09, 1000 + i);
+    if !miri && i % 600 == 599 {
+        return huge_case(args, rep, st, i, &mut rng);
+    }
     let big = !miri && rng.chance(1, 40);
     let maxlen = if miri { 60 } else if big { 50_000 } else { 600 };
     let len = match rng.below(5) {
